@@ -743,9 +743,20 @@ func run(c *h.Check) {
 		d, f := bounds(c.Thorough())
 		search(c, strict, d, f)
 	}
+	runLongLogs(c)
 }
 
 func replay(c *h.Check, rf *h.ReplayFile) []vrt.Violation {
+	var lw struct {
+		Long *longCase `json:"long"`
+	}
+	if json.Unmarshal(rf.Ops, &lw) == nil && lw.Long != nil {
+		var vs []vrt.Violation
+		for _, v := range runLong(*lw.Long) {
+			vs = append(vs, vrt.Violation{Kind: "fold-mismatch", Sig: v[0], Detail: v[1]})
+		}
+		return vs
+	}
 	var rc replayCase
 	if err := json.Unmarshal(rf.Ops, &rc); err != nil || len(rc.Hist) == 0 {
 		vrt.MachineryFault("replay: bad ops (%v)", err)
@@ -766,6 +777,7 @@ func main() {
 		"two-session equivalence compares collections and LastOffset (the statement's 'same state'), not callback counts: an event that fails is legitimately attempted again by the second session",
 		"OnError is asserted for an undecodable value (exactly one call) and for successful events (none); for an unregistered type in strict mode the statement only promises an error and no change, so OnError is not asserted there (weak reading)",
 		"each collection has its own MemoryStore (the documented construction); a store shared between collections is outside the statement",
+		"long logs (12-16 messages) are also materialized out of the bundled event stores (memory, SQLite, durable-streams), whose offsets are shaped differently: by Apply event by event, in one Replay session, and in two sessions for every split point",
 	}, run, replay, func(tier string) map[string]any {
 		d, f := bounds(tier == "thorough")
 		return map[string]any{
